@@ -88,6 +88,16 @@ func parseSubnet(phantomSubnet string) (*net.IPNet, error) {
 		return nil, fmt.Errorf("failed to parse %v as subnet", parsedNet)
 	}
 
+	// An IPv4 network written in IPv4-mapped IPv6 notation (::ffff:a.b.c.d/n) is
+	// the IPv4 network a.b.c.d/(n-96). ParseCIDR keeps the 128-bit mask, while the
+	// family filters and the selection classify the network by IP.To4(): give the
+	// address and the mask the same (IPv4) length.
+	if v4 := parsedNet.IP.To4(); v4 != nil && len(parsedNet.Mask) == net.IPv6len {
+		if ones, bits := parsedNet.Mask.Size(); bits == 128 && ones >= 96 {
+			parsedNet = &net.IPNet{IP: v4, Mask: net.CIDRMask(ones-96, 32)}
+		}
+	}
+
 	return parsedNet, nil
 }
 
